@@ -395,6 +395,11 @@ fn write_replay(
     let path = dir.join(format!("{prop}-{seed}-{run}.json"));
     let tapes_json: BTreeMap<&str, &Vec<u32>> =
         TAPE_NAMES.iter().copied().zip(tapes.iter()).collect();
+    // the minimised schedule and fault trace, human-readable: complete adapter event logs of
+    // every execution of the minimised case
+    crate::runner::RECORD_LOGS.with(|r| *r.borrow_mut() = Some(vec![]));
+    let _ = replay_case(prop, tapes);
+    let schedule = crate::runner::RECORD_LOGS.with(|r| r.borrow_mut().take()).unwrap_or_default();
     let j = serde_json::json!({
         "version": 1,
         "property": prop,
@@ -404,6 +409,7 @@ fn write_replay(
         "tapes": tapes_json,
         "violation": {"class": v.class, "detail": v.detail, "fingerprint": v.fingerprint},
         "rendered": render_case(prop, tapes),
+        "schedule_and_fault_trace": schedule,
         "shrink": {
             "evaluations": shrink_evals,
             "tape_len_before": before.iter().map(|t| t.len()).collect::<Vec<_>>(),
